@@ -31,8 +31,12 @@ def wellformed_arrays(h, r, o, arrays, discrete=False, one_move=True, prefix='')
     if r.tmax != INF:
         for i in range(n):
             if discrete:
-                # never exceed tmax when tmax - tmin is a whole number of steps
-                pass
+                # never exceed tmax when tmax - tmin is a whole number of steps; in general each reported
+                # step starts before tmax
+                if i > 0:
+                    h.require(p + 't<=tmax-discrete', LT(t[i - 1], r.tmax), {'i': i, 't': show(t[i])})
+                    if str(r.cfg.get('tmax', '')).startswith('steps:'):
+                        h.require(p + 't<=tmax-discrete', LE(t[i], r.tmax), {'i': i, 't': show(t[i])})
             else:
                 h.require(p + 't<tmax', LT(t[i], r.tmax), {'i': i, 't': show(t[i])})
     ok_counts = True
